@@ -1702,7 +1702,25 @@ pub async fn c03_fault_enumeration(h: &mut Hyb) {
             }
         }
     };
-    if thorough {
+    if case.get("focus_index") != 0 {
+        // full-index variant: the pages of blob indexes only, every field, and each of the low bits of the count
+        for (p, i) in &used {
+            let page = &clean[*p][*i * PAGE..(*i + 1) * PAGE];
+            let fields = interesting_fields(page, *p < first_block);
+            let is_index = crate::parser::parse_header(page).is_none() && !fields.is_empty();
+            if !is_index {
+                continue;
+            }
+            for (off, len) in fields {
+                faults.push(Fault::BitFlip { part: *p, page: *i, bit: (off + crate::choice::io_draw(len)) * 8 + crate::choice::io_draw(8) });
+            }
+            for bit in 0..3 {
+                // count is a big-endian u32 at bytes 8..12: its low bits
+                faults.push(Fault::BitFlip { part: *p, page: *i, bit: 11 * 8 + bit });
+            }
+            faults.push(Fault::ZeroPage { part: *p, page: *i });
+        }
+    } else if thorough {
         for (p, i) in &used {
             gen_for(*p, *i, &mut faults, true);
         }
@@ -1766,7 +1784,10 @@ pub async fn c03_fault_enumeration(h: &mut Hyb) {
                         return;
                     }
                     let cache = h.cache.clone().unwrap();
-                    for k in 0..keys {
+                    // (the full-index variant has hundreds of keys: the first, the last and those around the page
+                    // boundary of the index are read)
+                    let sample = case.get("focus_index") != 0;
+                    for k in (0..keys).filter(|k| !sample || *k < 4 || *k + 4 >= keys || (166..=174).contains(k)) {
                         let code: u64 = match cache.get(&k).await {
                             Ok(Some(e)) => match check_value(e.value()) {
                                 crate::types::Tagged::Ok { key, ver, .. } if key == k => ver as u64,
